@@ -217,7 +217,7 @@ pub fn run_scenario(sc: &Scenario) -> RunOutcome {
                     } else {
                         None
                     };
-                    let shared = shares_source(&call.op) && fed.is_none();
+                    let shared = shares_source(&call.op) && fed.is_none() && !call.own_source;
                     sched.begin_call(tid, ci, if shared { Some(call.doc) } else { None });
                     let before = typstyle_core::verif::steps();
                     let text = match &fed {
